@@ -95,6 +95,7 @@ class FnTranslator:
         self.fn = mod.find_function(qual)
         self.types = dict(fspec.get("params", {}))   # python param name -> "Q" | "Rect" | "Config" | "PNG" | "Range" | "List" | "Aff"
         self.locals = set()
+        self.mutable = set()
         self.used_consts = set()
         self.lambda_depth = 0
 
@@ -114,6 +115,8 @@ class FnTranslator:
                 return lit(F(str(n.value)) if isinstance(n.value, float) else F(n.value))
             raise Untranslatable(f"constant {n.value!r}")
         if isinstance(n, ast.Name):
+            if self.types.get(n.id) == "PaintTarget":
+                return "Enc.none"
             if n.id in self.locals or n.id in self.types:
                 return n.id
             if n.id in self.mod.consts and isinstance(self.mod.consts[n.id], F):
@@ -143,7 +146,11 @@ class FnTranslator:
             raise Untranslatable("binary op " + type(n.op).__name__)
         if isinstance(n, ast.BoolOp):
             op = " && " if isinstance(n.op, ast.And) else " || "
-            return "(" + op.join(self.E(v) for v in n.values) + ")"
+            parts = [self.E(v) for v in n.values]
+            # `←` is evaluated eagerly: a division that Python would skip by short-circuiting must not be hoisted
+            if any("Py.div" in p_ for p_ in parts[1:]):
+                raise Untranslatable("division under a short-circuiting and/or")
+            return "(" + op.join(parts) + ")"
         if isinstance(n, ast.Compare):
             parts, left = [], n.left
             for op, right in zip(n.ops, n.comparators):
@@ -151,7 +158,10 @@ class FnTranslator:
                 left = right
             return "(" + " && ".join(parts) + ")"
         if isinstance(n, ast.IfExp):
-            return f"(if {self.E(n.test)} then {self.E(n.body)} else {self.E(n.orelse)})"
+            a, b = self.E(n.body), self.E(n.orelse)
+            if "(←" in a or "(←" in b:
+                raise Untranslatable("effectful branch of a conditional expression")
+            return f"(if {self.E(n.test)} then {a} else {b})"
         if isinstance(n, ast.Attribute):
             return self.attr(n)
         if isinstance(n, ast.Subscript):
@@ -239,6 +249,15 @@ class FnTranslator:
             self.lambda_depth -= 1
             self.locals.discard(v)
             return f"({it.id}.all fun {v} => {body})"
+        if name == "tuple" and len(args) == 1 and isinstance(args[0], ast.Name) and self.types.get(args[0].id) == "Aff":
+            return args[0].id
+        if isinstance(f, ast.Attribute) and f.attr == "translate" and len(args) == 2 and ast.unparse(f.value) == "Affine2D.identity()":
+            return f"(Aff.id.translate {self.atom(self.E(args[0]))} {self.atom(self.E(args[1]))})"
+        externs = self.fspec.get("externs", {})
+        if name in externs:
+            if self.lambda_depth:
+                raise Untranslatable("monadic call inside a comprehension")
+            return f"(← {externs[name]} [" + ", ".join(self.E(a) for a in args) + "])"
         if name == "Affine2D" and len(args) == 6:
             return "(⟨" + ", ".join(self.E(a) for a in args) + "⟩ : Aff)"
         if name == "Affine2D.identity" and not args:
@@ -250,11 +269,20 @@ class FnTranslator:
         ctors = self.fspec.get("ctors", {})
         if name in ctors:
             fields = ctors[name]["fields"]
-            kw = {k.arg: k.value for k in n.keywords}
-            vals = list(args) + [kw[fld] for fld in fields[len(args):]]
+            ignore = set(ctors[name].get("ignore", []))
+            kw = {k.arg: k.value for k in n.keywords if k.arg not in ignore}
+            if set(kw) - set(fields):
+                raise Untranslatable("unknown constructor field in " + name)
+            vals = list(args) + [kw[fld] for fld in fields[len(args):] if fld in kw]
             if len(vals) != len(fields):
                 raise Untranslatable("constructor arity " + name)
-            return "(" + ctors[name]["lean"] + " " + " ".join(self.atom(self.E(v)) for v in vals) + ")"
+            parts = []
+            for v in vals:
+                if isinstance(v, ast.Call) and ast.unparse(v.func) == "Point" and len(v.args) == 2:
+                    parts += [self.atom(self.E(v.args[0])), self.atom(self.E(v.args[1]))]
+                else:
+                    parts.append(self.atom(self.E(v)))
+            return "(" + ctors[name]["lean"] + " " + " ".join(parts) + ")"
         if name in self.known:
             k = self.known[name]
             if self.lambda_depth:
@@ -332,6 +360,54 @@ class FnTranslator:
             i += 1
         return out, False
 
+    def iblock(self, stmts, ind):
+        """1:1 translation into Lean's imperative `do` notation (`let mut`, early `return`, `if` without `else`)"""
+        pad = "  " * ind
+        out = []
+        for s in stmts:
+            if isinstance(s, ast.Expr) and isinstance(s.value, ast.Constant) and isinstance(s.value.value, str):
+                continue
+            if isinstance(s, ast.Assert):
+                out.append(f"{pad}Py.assert {self.atom(self.E(s.test))}")
+            elif isinstance(s, (ast.Assign, ast.AnnAssign)):
+                tgt = s.targets[0] if isinstance(s, ast.Assign) else s.target
+                if isinstance(s, ast.Assign) and len(s.targets) != 1:
+                    raise Untranslatable("multiple assignment targets")
+                if isinstance(tgt, ast.Name):
+                    val = self.E(s.value)
+                    if tgt.id in self.locals:
+                        if tgt.id not in self.mutable:
+                            raise Untranslatable("reassignment of " + tgt.id)
+                        out.append(f"{pad}{tgt.id} := {val}")
+                    else:
+                        self.locals.add(tgt.id)
+                        out.append(f"{pad}let {'mut ' if tgt.id in self.mutable else ''}{tgt.id} := {val}")
+                elif isinstance(tgt, ast.Tuple) and all(isinstance(e, ast.Name) for e in tgt.elts):
+                    if isinstance(s.value, ast.Name) and self.types.get(s.value.id) == "Aff" and len(tgt.elts) == 6:
+                        val = "(" + ", ".join(f"{s.value.id}.{f}" for f in "abcdef") + ")"
+                    else:
+                        val = self.E(s.value)
+                    for e in tgt.elts:
+                        if e.id in self.mutable:
+                            raise Untranslatable("tuple target reassigned later")
+                        self.locals.add(e.id)
+                    out.append(f"{pad}let ({', '.join(e.id for e in tgt.elts)}) := {val}")
+                else:
+                    raise Untranslatable("assignment target")
+            elif isinstance(s, ast.Return):
+                if s.value is None:
+                    raise Untranslatable("bare return")
+                out.append(f"{pad}return {self.E(s.value)}")
+            elif isinstance(s, ast.If):
+                out.append(f"{pad}if {self.E(s.test)} then")
+                out += self.iblock(s.body, ind + 1)
+                if s.orelse:
+                    out.append(f"{pad}else")
+                    out += self.iblock(s.orelse, ind + 1)
+            else:
+                raise Untranslatable("statement " + type(s).__name__)
+        return out
+
     def translate(self):
         fs = self.fspec
         a = self.fn.args
@@ -342,6 +418,10 @@ class FnTranslator:
         sig, ptypes = [], []
         for p in params:
             t = self.types.get(p, "Q")
+            if t == "PaintTarget":
+                self.types[p] = t
+                ptypes.append(t)
+                continue
             self.types.setdefault(p, t)
             ptypes.append(t)
             if t == "Range":
@@ -354,9 +434,21 @@ class FnTranslator:
             self.types[a.vararg.arg] = "List"
             ptypes.append("List")
             sig.append(f"({a.vararg.arg} : List Q)")
-        body, ret = self.block(self.fn.body, 1)
-        if not ret:
-            raise Untranslatable("function does not return")
+        if fs.get("style") == "imperative":
+            counts = {}
+            for node in ast.walk(self.fn):
+                if isinstance(node, ast.Assign):
+                    for t in node.targets:
+                        if isinstance(t, ast.Name):
+                            counts[t.id] = counts.get(t.id, 0) + 1
+            self.mutable = {k for k, v in counts.items() if v > 1}
+            if not isinstance(self.fn.body[-1], ast.Return):
+                raise Untranslatable("function does not end in return")
+            body = self.iblock(self.fn.body, 1)
+        else:
+            body, ret = self.block(self.fn.body, 1)
+            if not ret:
+                raise Untranslatable("function does not return")
         lean = fs["lean"]
         txt = f"/-- translated from `{self.mod.path.name}` `{self.qual}` -/\n"
         txt += f"def {lean} {' '.join(sig)} : Py.M {fs['ret']} := do\n" + "\n".join(body) + "\n"
@@ -365,6 +457,8 @@ class FnTranslator:
 
 def translate_module(repo: Path, rel: str, spec: dict, out: Path, header: str):
     """returns a status line; always writes `out`"""
+    for extra in spec.get("imports", []):
+        header = header.replace("import NanoVerif.Model.PyRt\n", "import NanoVerif.Model.PyRt\nimport " + extra + "\n")
     lines = [header, "namespace NanoVerif.Tr", "open NanoVerif", ""]
     try:
         mod = Module(repo / rel, spec)
@@ -394,6 +488,15 @@ def translate_module(repo: Path, rel: str, spec: dict, out: Path, header: str):
 HEADER = """import NanoVerif.Model.PyRt
 /- GENERATED by harness/py2lean.py from /repo on every run — do not edit. -/"""
 
+_PAINT_CTORS = {
+    "PaintTranslate": {"lean": "Enc.translate", "fields": ["dx", "dy"], "ignore": ["paint"]},
+    "PaintScaleUniform": {"lean": "Enc.scaleUniform", "fields": ["scale"], "ignore": ["paint"]},
+    "PaintScale": {"lean": "Enc.scale", "fields": ["scaleX", "scaleY"], "ignore": ["paint"]},
+    "PaintScaleUniformAroundCenter": {"lean": "Enc.scaleUniformAroundCenter", "fields": ["scale", "center"], "ignore": ["paint"]},
+    "PaintScaleAroundCenter": {"lean": "Enc.scaleAroundCenter", "fields": ["scaleX", "scaleY", "center"], "ignore": ["paint"]},
+    "PaintTransform": {"lean": "Enc.transform", "fields": ["transform"], "ignore": ["paint"]},
+}
+
 SPECS = {
     "TrFixed": ("src/nanoemoji/fixed.py", {"functions": {
         "int16_safe": {"lean": "int16_safe", "ret": "Bool"},
@@ -411,6 +514,10 @@ SPECS = {
         "_ppem": {"lean": "ppem", "ret": "Q", "params": {"config": "Config"}},
         "BitmapMetrics.create": {"lean": "bitmap_metrics_create", "ret": "Py.Metrics", "params": {"config": "Config", "image_data": "PNG"},
                                  "ctors": {"BitmapMetrics": {"lean": "Py.Metrics.mk", "fields": ["x_offset", "y_offset", "line_height", "line_ascent"]}}},
+    }}),
+    "TrPaint": ("src/nanoemoji/paint.py", {"imports": ["NanoVerif.Model.Transformed", "NanoVerif.Generated.TrFixed"], "functions": {
+        "transformed": {"lean": "transformed", "ret": "Enc", "style": "imperative", "params": {"transform": "Aff", "target": "PaintTarget"},
+                        "ctors": _PAINT_CTORS, "externs": {"int16_safe": "int16_safe", "f2dot14_safe": "f2dot14_safe"}},
     }}),
     "TrColorGlyph": ("src/nanoemoji/color_glyph.py", {"functions": {
         "scale_viewbox_to_font_metrics": {"lean": "scale_viewbox_to_font_metrics", "ret": "Aff", "params": {"view_box": "Rect"}},
